@@ -11,12 +11,12 @@ ASPECT_THEOREMS = {
     "C01": ["magic_detect_eq_ref", "magic_detect_eq_spec", "magic_spec_implies_test", "magic_stable_under_signing", "magic_stable_under_signing_pe",
             "magic_pe_checksum_flips_refuted", "magic_stable_under_signing_zip", "magic_zip_only_triggers", "magic_dispatch_consistent",
             "magic_lookup_order_independent", "magic_route_consistent", "magic_callers_reviewed", "magic_filename_rules",
-            "magic_content_shadows_filename_refuted", "magic_order_resolves_overlaps", "magic_zip_order_resolves_overlaps"],
+            "magic_content_shadows_filename_refuted", "magic_order_resolves_overlaps", "magic_zip_order_resolves_overlaps", "magic_zip_eq_spec", "magic_module_fields"],
     "C02": ["magic_stable_under_append", "magic_append_flips_short_refuted", "magic_zip_only_triggers", "magic_zip_added_member_flips_refuted",
             "magic_prefix_clauses_disjoint", "magic_route_consistent"],
     "C03": ["magic_stable_under_signing", "magic_stable_under_signing_pe", "magic_stable_under_signing_zip", "magic_stable_under_append"],
     "C05": ["magic_detect_eq_ref", "magic_detect_eq_spec", "magic_spec_implies_test", "magic_prefix_clauses_disjoint", "magic_order_resolves_overlaps",
-            "magic_zip_order_resolves_overlaps", "magic_filename_rules"],
+            "magic_zip_order_resolves_overlaps", "magic_zip_eq_spec", "magic_filename_rules"],
     "C08": ["magic_is_signed_spec", "magic_stable_under_signing", "magic_stable_under_signing_zip", "magic_route_consistent", "magic_callers_reviewed"],
     "C11": ["magic_detect_total_no_panic", "magic_detect_bounded_peek"],
 }
@@ -321,8 +321,8 @@ def inprocess_part(ctx, st, res, viol, recs):
         for t in sorted(seen):
             if t > 0 and not by.get(t):
                 viol("C01", "type-without-module:" + ftname(t), "files are detected as %s but no module is registered for that type" % ftname(t), {"type": t})
-    if D:
-        res["samples"] += [{k: D[3].get(k) for k in ("name", "class", "len", "type", "consumed")}, {k: DC[-1].get(k) for k in ("name", "type", "comp", "zip_ok")}]
+    if D and DC:
+        res["samples"] += [{k: D[min(3, len(D) - 1)].get(k) for k in ("name", "class", "len", "type", "consumed")}, {k: DC[-1].get(k) for k in ("name", "type", "comp", "zip_ok")}]
 
 
 # ------------------------------------------------------------------ end-to-end part: the real binary
@@ -523,6 +523,18 @@ def e2e_part(ctx, res, viol):
         if v is not None and v[0] == 0:
             viol("C02", "rerouted-and-accepted:%s->%s" % (st, vm), "%s of the signed %s (%s) is handed to the %s verifier instead of the %s verifier, and accepted: %s"
                  % (tag, st, label, vm, st, v[1].strip()[-160:]), {"file": label, "mutation": tag, "probe": r, "verify": v[1][-400:], "head_hex": open(p, "rb").read(300).hex()})
+    # ---- standard input: only a module that allows it, and only when named with -T
+    text = os.path.join(work, "stdin.txt")
+    open(text, "wb").write(b"text from standard input\n")
+    for T, want_ok, want_msg in ((None, False, "standard input"), ("pgp", True, ""), ("ps", False, "stdin"), ("jar", False, "stdin"), ("mach-o-fat", False, "can't sign")):
+        cmdl = [kit.relic, "-c", kit.conf, "sign", "-k", "rsa2048", "-f", "-", "-o", os.path.join(work, "stdin.out")] + (["-T", T] if T else [])
+        p = subprocess.run(cmdl, stdin=open(text, "rb"), stdout=subprocess.PIPE, stderr=subprocess.PIPE, timeout=120)
+        msg = (p.stderr.decode(errors="replace") + p.stdout.decode(errors="replace")).strip()[-200:]
+        res["evaluations"] += 1
+        cov.setdefault("stdin", {})[T or "auto"] = p.returncode
+        if (p.returncode == 0) != want_ok or (not want_ok and want_msg not in msg):
+            viol("C01", "stdin-rule:%s" % (T or "auto"), "`relic sign -f -%s` exits %d (%s); expected %s" % (" -T " + T if T else "", p.returncode, msg, "success" if want_ok else "a refusal mentioning %r" % want_msg),
+                 {"cmd": " ".join(cmdl[3:]), "exit": p.returncode, "msg": msg})
     kit.close()
     res["e2e"] = cov
     res["samples"].append({"e2e_signed": cov["signed"], "e2e_verified": cov["verified"], "mutations": cov["mutations"]})
